@@ -432,6 +432,105 @@ CaseResult one_round(Tape &t, int round)
   return res;
 }
 
+// Fork mode: the child is this very process continuing after reproc_start
+// returned 0. Its environment and working directory are what the options say,
+// checked by the child itself (it is instrumented like the parent, so a vector
+// that was freed or never installed is seen at once).
+CaseResult fork_round(Tape &t)
+{
+  CaseResult res;
+  vs_reset();
+  const std::string root = fw::case_dir() + "/fork";
+  mkdir(root.c_str(), 0755);
+  size_t budget = 200000;
+  bool env_empty = t.chance(1, 3);
+  int extra_kind = (int) t.weighted({ 2, 2, 8 });  // NULL, empty list, some
+  std::vector<std::string> extra, parent_env;
+  size_t nextra = extra_kind <= 1 ? 0 : (size_t) t.range(1, 8);
+  for (size_t i = 0; i < nextra; i++) extra.push_back(gen_env_entry(t, i, budget));
+  size_t nparent = (size_t) t.range(0, 12);
+  for (size_t i = 0; i < nparent; i++) parent_env.push_back("P" + gen_env_entry(t, i, budget));
+  bool have_wd = t.coin();
+  std::string wd = root + "/wd";
+  mkdir(wd.c_str(), 0755);
+  std::vector<const char *> extrav;
+  for (auto &e : extra) extrav.push_back(e.c_str());
+  extrav.push_back(nullptr);
+  std::vector<char *> envv;
+  for (auto &e : parent_env) envv.push_back(const_cast<char *>(e.c_str()));
+  envv.push_back(nullptr);
+  std::vector<std::string> want;
+  if (!env_empty) want = parent_env;
+  for (auto &e : extra) want.push_back(e);
+  reproc_options opt;
+  memset(&opt, 0, sizeof(opt));
+  opt.fork = true;
+  opt.env.behavior = env_empty ? REPROC_ENV_EMPTY : REPROC_ENV_EXTEND;
+  opt.env.extra = extra_kind == 0 ? nullptr : extrav.data();
+  opt.working_directory = have_wd ? wd.c_str() : nullptr;
+  opt.redirect.parent = true;
+  opt.stop.first = { REPROC_STOP_WAIT, 5000 };
+  opt.stop.second = { REPROC_STOP_KILL, 2000 };
+  std::string report = root + "/report";
+  struct stat wd_st, cwd_st;
+  memset(&wd_st, 0, sizeof(wd_st));
+  stat(have_wd ? wd.c_str() : ".", &wd_st);
+  char **saved_environ = environ;
+  environ = envv.data();
+  reproc_t *p = reproc_new();
+  fflush(nullptr);
+  int r = reproc_start(p, nullptr, opt);
+  if (r == 0) {
+    // ---- child ----
+    std::string bad;
+    size_t n = 0;
+    for (char **e = environ; e && *e; e++, n++) {
+      if (n >= want.size()) {
+        bad += "extra entry \"" + std::string(*e).substr(0, 60) + "\"; ";
+        break;
+      }
+      if (want[n] != *e) {
+        bad += "entry " + std::to_string(n) + " is \"" + std::string(*e).substr(0, 60) + "\", expected \"" + want[n].substr(0, 60) + "\"; ";
+        break;
+      }
+    }
+    if (bad.empty() && n != want.size()) bad += std::to_string(n) + " entries, expected " + std::to_string(want.size()) + "; ";
+    // getenv must work on it too
+    if (bad.empty() && !want.empty()) {
+      std::string name = want.back().substr(0, want.back().find('='));
+      bool shadowed = false;
+      for (size_t i = 0; i + 1 < want.size(); i++) shadowed = shadowed || want[i].compare(0, name.size() + 1, name + "=") == 0;
+      const char *v = getenv(name.c_str());
+      if (!shadowed && (!v || want.back().substr(name.size() + 1) != v)) bad += "getenv(\"" + name.substr(0, 40) + "\") does not return the value given; ";
+    }
+    if (stat(".", &cwd_st) != 0 || cwd_st.st_dev != wd_st.st_dev || cwd_st.st_ino != wd_st.st_ino) bad += have_wd ? "not in the requested working directory; " : "not in the parent's working directory; ";
+    reproc_destroy(p);
+    int fd = open(report.c_str(), O_WRONLY | O_CREAT | O_TRUNC, 0644);
+    if (fd >= 0) {
+      std::string line = bad.empty() ? "ok\n" : bad + "\n";
+      write_all(fd, line.data(), line.size());
+      close(fd);
+    }
+    _exit(0);
+  }
+  environ = saved_environ;
+  res.describe = J().kv("fork_mode", true).kv("env_empty", env_empty).kv("extra_kind", extra_kind).kv("nextra", (unsigned long) extra.size()).kv("parent_env_entries", (unsigned long) parent_env.size()).kv("working_directory", have_wd).kv("start_result", r).str();
+  res.nontrivial = true;
+  res.hash = mix(mix(0x666f726b, (uint64_t) env_empty | (uint64_t) extra_kind << 1 | (uint64_t) have_wd << 3), (uint64_t) extra.size() * 100 + parent_env.size());
+  res.cls("fork-mode");
+  if (r < 0) {
+    res.fail("fork-start-failed", "fork-mode start returned " + std::to_string(r));
+    reproc_destroy(p);
+    return res;
+  }
+  int st = reproc_wait(p, 20000);
+  std::string rep = slurp(report);
+  if (st != 0 || rep.empty()) res.fail("fork-child-crashed", "the forked child ended with status " + std::to_string(st) + " without reporting (it reads its environment and working directory first)");
+  else if (rep != "ok\n") res.fail(rep.find("working directory") != std::string::npos ? "fork-wrong-working-directory" : "fork-environment-differs", "fork mode (" + std::string(env_empty ? "empty" : "extend") + ", " + std::to_string(extra.size()) + " extras): the child's own view: " + rep);
+  reproc_destroy(p);
+  return res;
+}
+
 CaseResult run_case(Tape &t, long)
 {
   vs_init();
@@ -450,6 +549,14 @@ CaseResult run_case(Tape &t, long)
       break;
     }
     if (one.kind == CaseResult::INCONCLUSIVE && all.kind == CaseResult::PASS) all.inconclusive(one.msg);
+  }
+  if (all.kind == CaseResult::PASS && t.chance(1, 5)) {
+    CaseResult f = fork_round(t);
+    descs.push_back(f.describe);
+    h = mix(h, f.hash);
+    for (auto &c : f.classes) all.classes.push_back(c);
+    all.nontrivial = true;
+    if (f.kind == CaseResult::FAIL) all.fail(f.sig, f.msg);
   }
   if (rounds > 1) all.cls("two-launches-in-one-process");
   all.hash = mix(h, (uint64_t) rounds);
